@@ -309,7 +309,7 @@ def build_real(d, cpp):
         raise mcdriver.FrameworkError('cannot build the real library for C15: ' + r.stderr[-3000:])
     return exe
 
-EP_NAMES = ["cv_wait /", "cv_wait+note", "cv_wait(reader)", "mu_wait(cond false)", "mu_wait(cond true)", "mu_wait+note", "note_wait", "counter_wait", "wait_n{note}", "wait_n{counter}", "wait_n{cv}", "wait_n{5 objects}"]
+EP_NAMES = ["cv_wait /", "cv_wait+note", "cv_wait(reader)", "mu_wait(cond false)", "mu_wait(cond true)", "mu_wait+note", "note_wait", "counter_wait", "wait_n{note}", "wait_n{counter}", "wait_n{cv}", "wait_n{5 objects}", "note_new(deadline)"]
 
 def run_C15(tier):
     t0 = time.time()
@@ -359,7 +359,7 @@ def run_C15(tier):
             print('VIOLATION property=C15 replay=%s' % p); print('  %s build, d=%d ms: %s' % (f['build'], f['d_ms'], f['case']))
         code = 1
     cov = {'evaluations': cases, 'distinct_nontrivial': nontriv,
-           'rule': 'every combination of entry point {cv wait, cv wait with note, cv wait in reader mode, mu_wait with false / true condition, mu_wait with note, note_wait, counter_wait, wait_n on a note / a counter / a cv / 5 objects (heap path)} x deadline {zero, +1ns, -1ns, +1s, -1s, -2^31 s, INT64_MIN s, now-d, now, now+d, no_deadline-1ns, no_deadline} x awaited event {never, already happened, happens at +d/2} x build {C, C++11}, d in %s ms; each case in a forked child on the real futex semaphore, clock and kernel; a case is non-trivial unless it is "no deadline and no event" (which must simply still be waiting after 3d)' % dvals,
+           'rule': 'every combination of entry point {cv wait, cv wait with note, cv wait in reader mode, mu_wait with false / true condition, mu_wait with note, note_wait, counter_wait, wait_n on a note / a counter / a cv / 5 objects (heap path), nsync_note_new with the deadline as the own deadline of the note (then an untimed wait, a poll, a child created under it and a notification of its parent)} x deadline {zero, +1ns, -1ns, +1s, -1s, -2^31 s, INT64_MIN s, now-d, now, now+d, no_deadline-1ns, no_deadline} x awaited event {never, already happened, happens at +d/2} x build {C, C++11}, d in %s ms; each case in a forked child on the real futex semaphore, clock and kernel; a case is non-trivial unless it is "no deadline and no event" (which must simply still be waiting after 3d)' % dvals,
            'samples': [{'entry': 'cv_wait', 'deadline': '-1s', 'event': 'never', 'expect': 'ETIMEDOUT within 2 s, no crash'}, {'entry': 'wait_n{5 objects}', 'deadline': 'now+d', 'event': 'happens at +d/2', 'expect': 'index of the notified note, not a timeout'}],
            'exhaustive': True, 'failing_cases': len(fails)}
     write_evidence('C15', tier, 'exploration', cov, t0, n, ['timing thresholds are generous (2 s for "promptly", 1 ms slack for "not early") so that machine load cannot raise an alarm', 'the real Linux futex and CLOCK_REALTIME of this sandbox'])
